@@ -1,5 +1,6 @@
 import Knut.Proofs.PortfolioFlows
 import Knut.Proofs.MTMBridge
+import Knut.Spec.PortfolioPeriodSpec
 /-! Lemmas for C20: the day equation `V1 − V0 = inflow + outflow` for ONE day of an arbitrary journal, under hypotheses
 about that day only (its transactions are plain, the prices of the commodities held rest), and "no flows" for a day whose
 transactions stay inside the portfolio.  The hypotheses are stated on the journal (`heldQty`, `priceAfter`), not on the
@@ -7,26 +8,10 @@ state of the processors; the invariant `Reach` ties the two. -/
 namespace Knut.Performance
 open Knut Knut.MTM
 
-/-! ### journal-level notions -/
+/-! ### journal-level notions (`Spec/PortfolioPeriodSpec.lean`) -/
 
-/-- the normalised prices in force after the days: `ComputePrices` alone, folded over the days -/
-def normAfter (v : Commodity) (days : List Day) : Option Prices.NPrices :=
-  match days.foldlM (Balance.pricesDay v) {} with
-  | .ok st => st.norm
-  | .error _ => none
-
-/-- the price of `c` in the valuation commodity after the days (`none`: no price) -/
-def priceAfter (v : Commodity) (days : List Day) (c : Commodity) : Option Rat :=
-  (normAfter v days).bind (Prices.find c)
-
-/-- the quantity of commodity `c` booked on account `a` by the transactions of the days -/
-def heldQty (a : Account) (c : Commodity) (days : List Day) : Rat :=
-  (qtysOn a c (days.flatMap (·.transactions))).sum
-
-/-- **prices rest on day `d`** (which follows the days `pre`): every commodity other than the valuation commodity of
-which an asset/liability account holds a non-zero quantity at the start of `d` has the same price after `d` as before -/
-def PricesRestOn (v : Commodity) (pre : List Day) (d : Day) : Prop :=
-  ∀ a c, a.isAL = true → c ≠ v → heldQty a c pre ≠ 0 → priceAfter v (pre ++ [d]) c = priceAfter v pre c
+theorem heldQty_eq (a : Account) (c : Commodity) (days : List Day) :
+    heldQty a c days = (qtysOn a c (days.flatMap (·.transactions))).sum := rfl
 
 /-- a day without price directives lets the prices rest -/
 theorem pricesRest_of_no_prices (v : Commodity) (pre : List Day) (d : Day) (h : d.prices = []) :
@@ -253,8 +238,7 @@ theorem reach_empty (cfg : Cfg) : Reach cfg [] {} := by
 
 theorem heldQty_append (a : Account) (c : Commodity) (pre : List Day) (d : Day) :
     heldQty a c (pre ++ [d]) = heldQty a c pre + (qtysOn a c d.transactions).sum := by
-  unfold heldQty
-  rw [List.flatMap_append, qtysOn_append, sum_append_rat]
+  rw [heldQty_eq, heldQty_eq, List.flatMap_append, qtysOn_append, sum_append_rat]
   simp
 
 theorem qtyZero_of_shape {adj : List Transaction} (h : ∀ t ∈ adj, AdjShape t) : QtyZero adj := by
@@ -602,5 +586,104 @@ theorem perfFrom_length {cfg : Cfg} {days : List Day} {ps : PState} {perfs : Lis
     (h : perfFrom cfg ps days = .ok perfs) : perfs.length = days.length := by
   have := congrArg List.length (perfFrom_dates days ps perfs h)
   simpa using this
+
+/-! ### the executable forms of the hypotheses are sound -/
+
+theorem mirroredB_sound : ∀ (ps : List Posting), mirroredB ps = true → Paired ps ∧ AccMirror (ps.map accPair)
+  | [], _ => ⟨Paired.nil, AccMirror.nil⟩
+  | [_], h => by simp [mirroredB] at h
+  | a :: b :: rest, h => by
+    simp only [mirroredB, Bool.and_eq_true, decide_eq_true_eq] at h
+    obtain ⟨⟨⟨⟨⟨h1, h2⟩, h3⟩, h4⟩, h5⟩, h6⟩ := h
+    obtain ⟨i1, i2⟩ := mirroredB_sound rest h6
+    exact ⟨Paired.cons a b rest h1 h2 h3 i1, AccMirror.cons (accPair a) (accPair b) _ h4 h5 i2⟩
+
+theorem plainB_sound {t : Transaction} (h : plainB t = true) : Plain t := by
+  unfold plainB at h
+  simp only [Bool.and_eq_true, Option.isNone_iff_eq_none] at h
+  obtain ⟨i1, i2⟩ := mirroredB_sound t.postings h.2
+  exact ⟨h.1, i1, i2⟩
+
+theorem mirroredB_build (cr dr : Account) (c : Commodity) (q v : Rat) (rest : List Posting) :
+    mirroredB (postingBuild cr dr c q v ++ rest) = mirroredB rest := by
+  unfold postingBuild
+  simp only [List.cons_append, List.nil_append, mirroredB, decide_true, Bool.true_and, Bool.and_eq_true,
+    decide_eq_true_eq]
+  split <;> simp [Rat.neg_neg]
+
+/-- what the loader builds without annotation passes the executable test -/
+theorem plainB_ofBookings (date : Int) (desc : String) (bks : List Booking) :
+    plainB (Transaction.ofBookings date desc none bks) = true := by
+  unfold plainB Transaction.ofBookings
+  simp only [Option.isNone_none, Bool.true_and]
+  induction bks with
+  | nil => rfl
+  | cons b rest ih => rw [List.flatMap_cons, mirroredB_build]; exact ih
+
+theorem heldQty_zero_of_not_position (a : Account) (c : Commodity) (days : List Day)
+    (h : (a, c) ∉ positionsOf days) : heldQty a c days = 0 := by
+  unfold heldQty
+  have : ((days.flatMap (·.transactions)).flatMap (·.postings)).filter
+      (fun p => decide (p.account = a) && decide (p.commodity = c)) = [] := by
+    rw [List.filter_eq_nil_iff]
+    intro p hp hpc
+    simp only [Bool.and_eq_true, decide_eq_true_eq] at hpc
+    apply h
+    unfold positionsOf
+    exact List.mem_map.mpr ⟨p, hp, by rw [hpc.1, hpc.2]⟩
+  rw [this]
+  rfl
+
+theorem pricesRestB_sound {v : Commodity} {pre : List Day} {d : Day} (h : pricesRestB v pre d = true) :
+    PricesRestOn v pre d := by
+  intro a c hal hc hheld
+  by_cases hpos : (a, c) ∈ positionsOf pre
+  · unfold pricesRestB at h
+    simp only [List.all_eq_true] at h
+    have := h (a, c) hpos
+    simp only [hal, Bool.not_true, Bool.false_or, Bool.or_eq_true, decide_eq_true_eq] at this
+    rcases this with (h1 | h1) | h1
+    · exact absurd h1 hc
+    · exact absurd h1 hheld
+    · exact h1
+  · exact absurd (heldQty_zero_of_not_position a c pre hpos) hheld
+
+theorem mem_splits : ∀ (days acc : List Day) (pre : List Day) (d : Day) (post : List Day),
+    days = pre ++ d :: post → (acc ++ pre, d) ∈ splits acc days := by
+  intro days
+  induction days with
+  | nil => intro acc pre d post h; simp at h
+  | cons x rest ih =>
+    intro acc pre d post h
+    cases pre with
+    | nil =>
+      simp only [List.nil_append, List.cons.injEq] at h
+      obtain ⟨rfl, _⟩ := h
+      simp [splits]
+    | cons y pre' =>
+      simp only [List.cons_append, List.cons.injEq] at h
+      obtain ⟨rfl, h⟩ := h
+      have := ih (acc ++ [x]) pre' d post h
+      simp only [splits, List.mem_cons]
+      right
+      simpa [List.append_assoc] using this
+
+/-- **the monitor's predicate implies the hypotheses of the 0 %-theorem** for the period -/
+theorem calmPeriodB_sound {f : Flags} {days : List Day} {p : Period} (h : calmPeriodB f days p = true) :
+    ∀ pre d post, days = pre ++ d :: post → p.start ≤ d.date → d.date ≤ p.stop →
+      (∀ t ∈ d.transactions, Plain t) ∧ (∀ v, f.valuation = some v → PricesRestOn v pre d) := by
+  intro pre d post hsplit h1 h2
+  unfold calmPeriodB at h
+  simp only [List.all_eq_true] at h
+  have hm := mem_splits days [] pre d post hsplit
+  simp only [List.nil_append] at hm
+  have := h (pre, d) hm
+  simp only [h1, h2, decide_true, Bool.and_self, Bool.not_true, Bool.false_or] at this
+  unfold calmDayB at this
+  simp only [Bool.and_eq_true, List.all_eq_true] at this
+  refine ⟨fun t ht => plainB_sound (this.1 t ht), ?_⟩
+  intro v hv
+  rw [hv] at this
+  exact pricesRestB_sound this.2
 
 end Knut.Performance
